@@ -1,5 +1,6 @@
 import TextxVerif.Wire
 import TextxVerif.Peg.Case
+import TextxVerif.Peg.CaseKw
 /-! Driver for C20 (token matching with `ignore_case` on top of the Arpeggio mirror).
 
 {"op":"c20","nodes":[…as Drivers/Peg.lean…],"top":n,"comments":n|null,"memo":b,"skipws":b,"ws":"…",
@@ -17,6 +18,14 @@ import TextxVerif.Peg.Case
    "compiled":[{"k":"str","v":"…","ic":b}|{"k":"re","v":pattern,"ic":compiled flag,"flag":b}|
                {"k":"kw","v":literal,"pat":pattern,"ic":compiled flag,"flag":b}…],
    "hist_compiled":[[…]…],"later_compiled":[[…]…]}   (`buildMM` threaded through history, meta-model, later)
+Optional (C20 engine rows / C21 in the mirror):
+ "cc":{"d":[cp…],"w":[cp…],"s":[cp…],"f":[[cp,cp]…]}  Python's classification of the non-ASCII characters (as Drivers/Re.lean);
+ kw tokens may carry "ic" (flag of the compiled regex object; default cfg.ic);
+ "off":{"nodes":[…],"toks":[…]}   the parser model of the same grammar built with autokwd=False
+→ every out gets "kwrows":[[node,[len|-1…]]…] = rows of the kw tokens computed by the Lean regex engine on `lit\b`
+   (`reRx cc (Kwd.kwRe ic lit)`), and with "off" the answer gets
+   "akw":{"model":b  (`Lang.autokwd` of the off-model = the model under test, rule names aside),"uniform":b,
+          "nogl":[b…] (`NoGluedKeywordIn` per input),"same":[b…] (run of the off-model = run of the model under test; computed for inputs[0] when its hypotheses hold, else true)}
 Undecodable requests → {"err":"bad-op"}.
 -/
 open Lean Wire Peg Peg.Case
@@ -48,6 +57,33 @@ def parseRow (j : Json) : Option (Array (Option Nat)) := do
   a.mapM fun e => match (fromJson? e : Except String Int) with
     | .ok i => some (if i < 0 then none else some i.toNat)
     | .error _ => none
+
+def chr? (j : Json) : Option Char := do
+  let n ← asNat? j
+  if n.isValidChar then some (Char.ofNat n) else none
+
+def chars? (j : Json) : Option (List Char) := do
+  let a ← asArr? j
+  a.toList.mapM chr?
+
+/-- Python's classification of the non-ASCII characters of the case; ASCII tables when absent -/
+def cc? (j : Json) : Option Re.CharClasses :=
+  match getObj? j "cc" with
+  | none => some Re.asciiCC
+  | some c => do
+    let d ← chars? (← getObj? c "d")
+    let w ← chars? (← getObj? c "w")
+    let s ← chars? (← getObj? c "s")
+    let f ← (← getArr? c "f").toList.mapM fun p => do
+      let xs ← chars? p
+      match xs with
+      | [a, b] => pure (a, b)
+      | _ => none
+    pure (Re.tableCC d w s f)
+
+def nodeSame (a b : Node) : Bool :=
+  a.kind == b.kind && a.kids == b.kids && a.tok == b.tok && a.ws == b.ws && a.skipws == b.skipws &&
+    a.root == b.root && a.suppress == b.suppress && a.sep == b.sep && a.eolterm == b.eolterm
 
 def parseTok (j : Json) : Option Tok := do
   match ← getStr? j "k" with
@@ -170,6 +206,18 @@ def handle1 (j : Json) : Json :=
         pure ({ text := t.toList.toArray, rx := rx } : Inp)
       let compiled ← compiledFields j
       let fuel ← getNat? j "fuel"
+      let cc ← cc? j
+      let cfgIc := ((getObj? j "cfg").bind fun c => getBool? c "ic").getD false
+      let tokArr ← getArr? j "toks"
+      let kwIc : Nat → Bool := fun i => ((tokArr[i]?).bind fun t => getBool? t "ic").getD cfgIc
+      let off : Option Lang ← match getObj? j "off" with
+        | none => pure none
+        | some Json.null => pure none
+        | some o => do
+          let n2 ← (← getArr? o "nodes").mapM parseNode
+          let t2 ← (← getArr? o "toks").mapM parseTok
+          pure (some ({ nodes := n2, comments := comments, memo := memo, toks := t2, top := top,
+                        skipws := skipws, ws := ws.toList } : Lang))
       if toks.size != nodes.size then none
       if !(inps.toList.map (·.text)).Nodup then none
       let base ← inps[0]?
@@ -189,7 +237,14 @@ def handle1 (j : Json) : Json :=
           match toks[i]? with
           | some (Tok.str lit ic) => some (Json.arr #[toJson i, rowToJson (tokRow lower (rx i) (.str lit ic) inp.text)])
           | _ => none
-        Json.mkObj [("res", res), ("vals", toJson vals), ("strrows", Json.arr strrows.toArray)]
+        let kwrows := (List.range toks.size).filterMap fun i =>
+          match toks[i]? with
+          | some (Tok.kw lit) =>
+              some (Json.arr #[toJson i, rowToJson (Array.ofFn (n := inp.text.size + 1) fun p =>
+                reRx cc (Kwd.kwRe (kwIc i) lit) inp.text p.val)])
+          | _ => none
+        Json.mkObj [("res", res), ("vals", toJson vals), ("strrows", Json.arr strrows.toArray),
+                    ("kwrows", Json.arr kwrows.toArray)]
       let variants := inps.toList.drop 1
       let foldeq := variants.map fun v => decide (FoldEq lower base.text v.text)
       let rxeq := variants.map fun v =>
@@ -199,7 +254,29 @@ def handle1 (j : Json) : Json :=
           | none => true
       let hyp := Json.mkObj [("allic", allIc toks), ("wsneutral", wsNeutralB tab L),
                              ("foldeq", toJson foldeq), ("rxeq", toJson rxeq)]
-      pure <| Json.mkObj ([("outs", Json.arr outs), ("hyp", hyp)] ++ compiled)
+      let akw : List (String × Json) := match off with
+        | none => []
+        | some Lo =>
+          let La := Lo.autokwd cc cfgIc
+          let model := La.toks == toks && La.nodes.size == nodes.size &&
+            (List.range nodes.size).all fun i => match La.nodes[i]?, nodes[i]? with
+              | some a, some b => nodeSame a b
+              | _, _ => false
+          let outJ (o : Outcome) : String := match o with
+            | .tree v => (valToJson v).compress
+            | .noMatch p => s!"nomatch {p}"
+            | .fuel => "fuel"
+            | .bad => "bad"
+          let uni := uniformIc cfgIc Lo.toks
+          let nogl := inps.toList.map fun inp => noGluedKeywordInB cc cfgIc Lo.toks inp.text
+          -- the instance of `C21_same_run` is only claimed where its hypotheses hold, and (being a theorem) only
+          -- computed for the original text of the group; the real parses are compared for every text by the harness
+          let same := ((inps.toList.zip nogl).zipIdx).map fun ((inp, ng), k) =>
+            !(uni && ng && k == 0) ||
+              outJ (Lo.run lower (rxFor inp) inp.text fuel) == outJ (L.run lower (rxFor inp) inp.text fuel)
+          [("akw", Json.mkObj [("model", model), ("uniform", uni), ("nogl", toJson nogl),
+                               ("same", toJson same)])]
+      pure <| Json.mkObj ([("outs", Json.arr outs), ("hyp", hyp)] ++ akw ++ compiled)
     r.getD badOp
   | some "compile" => ((compiledFields j).map Json.mkObj).getD badOp
   | _ => badOp
